@@ -817,6 +817,72 @@ theorem gor_value (c : Ctx K) :
   intro x hx
   rw [h x hx]; simp [evalE]
 
+theorem glr_value (c : Ctx K) :
+    ∀ x ∈ Table.levels, (lookupFun (Table.lvl x "GLR")).bind (evalE c) =
+      some (if evalRate .wat false c + evalRate .oil false c = 0 then 0
+            else evalRate .gas false c / (evalRate .wat false c + evalRate .oil false c)) := by
+  have h : ∀ x ∈ Table.levels, lookupFun (Table.lvl x "GLR") =
+      some (.div (.rate .gas false) (.sum (.rate .wat false) (.rate .oil false))) := by
+    unfold lookupFun; rw [Table.lookupK_eq]; decide +kernel
+  intro x hx
+  rw [h x hx]; simp [evalE]
+
+/-- `WOGR`, `WWGR`: oil and water over gas (defined on the well level only). -/
+theorem well_gas_ratio_value (c : Ctx K) :
+    (lookupFun "WOGR").bind (evalE c) =
+      some (if evalRate .gas false c = 0 then 0 else evalRate .oil false c / evalRate .gas false c) ∧
+    (lookupFun "WWGR").bind (evalE c) =
+      some (if evalRate .gas false c = 0 then 0 else evalRate .wat false c / evalRate .gas false c) := by
+  have h1 : lookupFun "WOGR" = some (.div (.rate .oil false) (.rate .gas false)) := by
+    unfold lookupFun; rw [Table.lookupK_eq]; decide +kernel
+  have h2 : lookupFun "WWGR" = some (.div (.rate .wat false) (.rate .gas false)) := by
+    unfold lookupFun; rw [Table.lookupK_eq]; decide +kernel
+  rw [h1, h2]; simp [evalE]
+
+/-- The observed (history) rate of a phase summed over the flowing wells, as `production_history<>` does. -/
+def histProd (c : Ctx K) (ph : HPhase) : K := (c.wells.map (hcontrib (fun w => w.hprod ph) c.efac)).sum
+
+/-- History ratios `XWCTH`, `XGORH`, `XGLRH` (X ∈ {W, G, F}) from the history rates. -/
+theorem history_ratio_value (c : Ctx K) :
+    ∀ x ∈ Table.levels,
+      (lookupFun (Table.lvl x "WCTH")).bind (evalE c) =
+        some (if histProd c .water + histProd c .oil = 0 then 0
+              else histProd c .water / (histProd c .water + histProd c .oil)) ∧
+      (lookupFun (Table.lvl x "GORH")).bind (evalE c) =
+        some (if histProd c .oil = 0 then 0 else histProd c .gas / histProd c .oil) ∧
+      (lookupFun (Table.lvl x "GLRH")).bind (evalE c) =
+        some (if histProd c .water + histProd c .oil = 0 then 0
+              else histProd c .gas / (histProd c .water + histProd c .oil)) := by
+  have h : ∀ x ∈ Table.levels,
+      lookupFun (Table.lvl x "WCTH") = some (.div (.prodHist .water) (.sum (.prodHist .water) (.prodHist .oil))) ∧
+      lookupFun (Table.lvl x "GORH") = some (.div (.prodHist .gas) (.prodHist .oil)) ∧
+      lookupFun (Table.lvl x "GLRH") = some (.div (.prodHist .gas) (.sum (.prodHist .water) (.prodHist .oil))) := by
+    unfold lookupFun; rw [Table.lookupK_eq]; decide +kernel
+  intro x hx
+  obtain ⟨h1, h2, h3⟩ := h x hx
+  have hw := (evalHist_eq c .water).1
+  have ho := (evalHist_eq c .oil).1
+  have hg := (evalHist_eq c .gas).1
+  have hs := evalE_sum c _ _ _ _ hw ho
+  rw [h1, h2, h3]
+  exact ⟨evalE_div c _ _ _ _ hw hs, evalE_div c _ _ _ _ hg ho, evalE_div c _ _ _ _ hg hs⟩
+
+/-- No threshold in `quantity::operator/`: for *every* non-zero denominator, however small, the
+ratio times the denominator gives back the numerator. -/
+theorem evalE_div_mul (c : Ctx K) (a b : E) (x y r : K) (ha : evalE c a = some x) (hb : evalE c b = some y)
+    (hy : y ≠ 0) (hr : evalE c (.div a b) = some r) : r * y = x := by
+  rw [evalE_div c a b x y ha hb, if_neg hy] at hr
+  injection hr with hr
+  rw [← hr]; exact div_mul_cancel₀ x hy
+
+/-- A ratio vector is zero only if its numerator or its denominator is exactly zero. -/
+theorem evalE_div_eq_zero (c : Ctx K) (a b : E) (x y : K) (ha : evalE c a = some x) (hb : evalE c b = some y) :
+    evalE c (.div a b) = some 0 ↔ (y = 0 ∨ x = 0) := by
+  rw [evalE_div c a b x y ha hb]
+  by_cases hy : y = 0
+  · simp [hy]
+  · simp [hy]
+
 theorem voidage_value (c : Ctx K) :
     ∀ x ∈ Table.levels, (lookupFun (Table.lvl x "VPR")).bind (evalE c) =
       some (evalRate .reservoir_water false c + evalRate .reservoir_oil false c +
